@@ -440,6 +440,10 @@ func (c *simCluster) breakConn(k [2]uint64) {
 func (c *simCluster) monitors(n *simNode) {
 	r := n.r
 	id := r.nid
+	// C05: what the node believes about term and vote is what is on disk
+	if d := n.termFileMismatch(); d != "" {
+		c.finding("C05", "vote-not-durable", fmt.Sprintf("node %d: %s", id, d))
+	}
 	// C01: one leader per term
 	if r.state == Leader {
 		if other, ok := c.elected[r.term]; ok && other != id {
@@ -1082,7 +1086,11 @@ func (c *simCluster) doClient(n *simNode, kinds []entryType) {
 
 // doFlr: one piece of work of the replication goroutine for follower fid: consume a
 // pending leader update, or write the next request (probe or pipelined entries).
-func (c *simCluster) doFlr(n *simNode, fid uint64) {
+func (c *simCluster) doFlr(n *simNode, fid uint64) { c.doFlrOpt(n, fid, false) }
+
+// doFlrOpt with sendFirst: the goroutine writes its next request although a leader update is
+// waiting (its select picked the heartbeat timer, or it was already inside the write).
+func (c *simCluster) doFlrOpt(n *simNode, fid uint64, sendFirst bool) {
 	l := n.l
 	id := n.r.nid
 	rp := l.repls[fid]
@@ -1090,7 +1098,7 @@ func (c *simCluster) doFlr(n *simNode, fid uint64) {
 	if rq == nil {
 		return
 	}
-	if len(rp.leaderUpdateCh) > 0 {
+	if len(rp.leaderUpdateCh) > 0 && !sendFirst {
 		c.run(n, fmt.Sprintf("flr %d leaderUpdate", fid), fmt.Sprintf("(ELeader (LFlrUpdate %d))", fid), func() (response, []string) {
 			u := <-rp.leaderUpdateCh
 			rp.onLeaderUpdate(u, rq)
